@@ -228,6 +228,31 @@ def circuitMatrix {α : Type} [Add α] [Zero α] [Mul α] [DecidableEq α] (fiel
   | .ok none => .error .other
   | .ok (some M) => .ok M
 
+/-! ### `StatevectorSimulator.run` (statevector_simulator.py:14-26) -/
+
+/-- matrix–vector product `A @ v` -/
+def DMat.mulVec {α : Type} {N : Nat} [Add α] [Zero α] [Mul α] (A : DMat α N) (v : Vector α N) : Vector α N :=
+  Vector.ofFn fun i => (List.ofFn fun k : Fin N => A.get i k * v[k.1]).sum
+
+/-- `psi = np.zeros(dim); psi[0] = 1` -/
+def basis0 {α : Type} [Zero α] [One α] (N : Nat) : Vector α N := Vector.ofFn fun i => if i.1 = 0 then 1 else 0
+
+/-- `for g in circ.gates: psi = g.as_circuit_matrix(fields) @ psi` – control instructions are NOT skipped here: they have no
+`as_circuit_matrix` (`AttributeError` ↦ `other`) -/
+def svLoop {α : Type} [Add α] [Zero α] [Mul α] [DecidableEq α] (fields : List FieldSpec) :
+    Vector α (2 ^ numWires fields) → List (Instr α) → Except Err (Vector α (2 ^ numWires fields))
+  | psi, [] => .ok psi
+  | _, .ctrl :: _ => .error .other
+  | psi, .gate ps d g :: is =>
+    match placedMat fields ps d g with
+    | .error e => .error e
+    | .ok M => svLoop fields (M.mulVec psi) is
+
+/-- `StatevectorSimulator().run(circ)` with `fields = circ.fields()`: the image of `|0…0⟩` -/
+def svRun {α : Type} [Add α] [Zero α] [One α] [Mul α] [DecidableEq α] (fields : List FieldSpec)
+    (instrs : List (Instr α)) : Except Err (Vector α (2 ^ numWires fields)) :=
+  svLoop fields (basis0 _) instrs
+
 /-! ### `Circuit.inverse` (circuit.py:78-82): `for gate in reversed(self.gates): circ.append_gate(gate.inverse())` -/
 
 /-- the inverse circuit: the reversed list of the gates' inverses. `inv` is the per-gate `inverse()`
